@@ -88,5 +88,7 @@ func runC03(c *Ctx) []Obligation {
 	out := c.Rows(rows)
 	out = append(out, c.twins(P, "rotate.twins", T0+"rotateLeft", T0+"rotateRight", []Rename{{From: "Left", To: "Right", Swap: true}, {From: "left", To: "right", Swap: true}},
 		"a right rotation is a left rotation with the two sides exchanged"))
+	out = append(out, c.twins(P, "child-access.twins", "(*store/iavl.Node).getLeftNode", "(*store/iavl.Node).getRightNode", []Rename{{From: "Left", To: "Right", Swap: true}, {From: "left", To: "right", Swap: true}},
+		"the right child is loaded exactly as the left child is (cached pointer, else by its own hash)"))
 	return out
 }
